@@ -55,6 +55,7 @@ class Client:
             self.alive = False
 
     def request(self, method, params=None, timeout=90):
+        """abort_check (attribute, optional): called about once a second while waiting; a true result gives up."""
         i = self.next_id
         self.next_id += 1
         m = {"jsonrpc": "2.0", "id": i, "method": method}
@@ -70,7 +71,10 @@ class Client:
                 if method == "shutdown":
                     return None
                 raise RuntimeError(f"the server went away during {method}")
-            time.sleep(0.01)
+            time.sleep(0.002)
+            chk = getattr(self, "abort_check", None)
+            if chk and time.time() - t0 > 1.0 and int((time.time() - t0) * 500) % 500 == 0 and chk():
+                raise RuntimeError(f"gave up waiting for {method}")
         raise TimeoutError(f"no response to {method} within {timeout}s")
 
     def notify(self, method, params):
